@@ -91,6 +91,13 @@ func (g *gen) Generate(typs []types.Type) error {
 	return g.genSlice(sliceType, typs[1])
 }
 
+// isOrdered reports whether the type is an unnamed basic type on which < is defined.
+// Other types, including bool and complex numbers, are compared with the derived compare function.
+func isOrdered(typ types.Type) bool {
+	basic, ok := typ.(*types.Basic)
+	return ok && basic.Info()&types.IsOrdered != 0
+}
+
 func (g *gen) genTwo(typ, typ2 types.Type) error {
 	p := g.printer
 	g.Generating(typ, typ2)
@@ -102,8 +109,8 @@ func (g *gen) genTwo(typ, typ2 types.Type) error {
 	p.P("// Deprecated: In favour of generics.")
 	p.P("func %s(a, b %s) %s {", name, typeStr, typeStr)
 	p.In()
-	switch typ.(type) {
-	case *types.Basic:
+	switch {
+	case isOrdered(typ):
 		p.P("if a > b {")
 	default:
 		p.P("if %s(a, b) > 0 {", g.compare.GetFuncName(typ, typ))
@@ -139,8 +146,8 @@ func (g *gen) genSlice(typ *types.Slice, typ2 types.Type) error {
 	p.P("list = list[1:]")
 	p.P("for i, v := range list {")
 	p.In()
-	switch etyp.(type) {
-	case *types.Basic:
+	switch {
+	case isOrdered(etyp):
 		p.P("if v > m {")
 	default:
 		p.P("if %s(v, m) > 0 {", g.compare.GetFuncName(etyp, etyp))
